@@ -165,6 +165,49 @@ def run(report, p):
                 ok = bool(nows) and utc and any(k.endswith("Z") and "%H" in k for k in consts)
     r4.check(ok, fn, fn.node, "manifest file names do not carry an aware UTC time formatted with a trailing 'Z'", construct="filename date")
 
+    # ------------------------------------------------------------------ R16.7
+    r7 = report.rule(
+        "R16.7",
+        "the manifest reader converts the size attribute faithfully: the expression stored into a record's file_size, evaluated for the attribute text \"0\", yields the integer 0 "
+        "(an empty file read back as `no size` loses the recorded size in every later generation and flattened manifest), and for \"7\" yields 7",
+        1,
+    )
+    from sa.absint import UNKNOWN, Evaluator, Val
+
+    rd = p.funcs.get("ascmhl.hashlist_xml_parser.parse")
+    if rd is None:
+        raise AnalysisError("manifest reader hashlist_xml_parser.parse not found")
+    stores = [n for n in walk_no_nested(rd.node) if isinstance(n, ast.Assign) and any(isinstance(t, ast.Attribute) and t.attr == "file_size" for t in n.targets)]
+    if not stores:
+        raise AnalysisError("manifest reader: no store into a record's file_size found")
+    for st in stores:
+        r7.instance(rd, st, norm(st)[:90])
+        body = None
+        par = parent(st)
+        for fld in ("body", "orelse", "finalbody"):
+            if st in (getattr(par, fld, None) or []):
+                body = getattr(par, fld)
+        if body is None:
+            raise AnalysisError(f"{rd.loc(st)}: enclosing block of the file_size store not found")
+        before = body[: body.index(st)]
+        for text, want in (("0", 0), ("7", 7)):
+            def atom(e, env, text=text):
+                if isinstance(e, ast.Call) and isinstance(e.func, ast.Attribute) and e.func.attr == "get" and e.args and isinstance(e.args[0], ast.Constant) and e.args[0].value == "size":
+                    return Val(text)
+                if isinstance(e, ast.Subscript) and isinstance(e.slice, ast.Constant) and e.slice.value == "size":
+                    return Val(text)
+                return None
+
+            ev = Evaluator(atom, where=rd.qual, value_boolops=True)
+            vals = []
+            for env, out in ev.run(before, {}):
+                if out is None:
+                    vals.append(ev.eval(st.value, env))
+            if not vals or any(v is UNKNOWN for v in vals):
+                raise AnalysisError(f"{rd.loc(st)}: the conversion of the size attribute `{norm(st.value)[:60]}` is not understood by the evaluator")
+            bad = [v for v in vals if not (type(v) is int and v == want)]
+            r7.check(not bad, rd, st, f"the reader turns the recorded size {text!r} into {bad[0] if bad else None!r}: `{norm(st.value)[:70]}`", construct=f"size attribute {text!r} read back as {bad[0] if bad else None!r}")
+
     report.not_decided += ["correctness of the tz database", "that the instant written equals the file's mtime at run time (only its provenance)", "sizes of files that change during hashing"]
 
 
